@@ -627,6 +627,8 @@ enum Ty {
     F,
     C0,
     C1,
+    /// record {gain: float, f: (float)->float} made by a factory
+    RecC,
 }
 struct CCtx {
     vars: Vec<(String, Ty, bool)>, // name, type, assignable local float
@@ -656,7 +658,7 @@ impl CCtx {
 fn fc_atom(i: u64) -> E {
     if i == 0 { var(DSP_IN) } else { num(1.0) }
 }
-const FC_RADIX: u64 = 32;
+const FC_RADIX: u64 = 35;
 pub fn fc_count(k: u32) -> u64 {
     seq_count(FC_RADIX, k)
 }
@@ -794,6 +796,31 @@ fn fc_stmt(c: &mut CCtx, o: u64) -> Option<()> {
             c.stmts.push(let_(&f, var("idf")));
             c.vars.push((f, Ty::C1, false));
         }
+        32 => {
+            // a record that mixes a closure with a plain field, built and returned by a function
+            let r = c.fresh("k");
+            c.need("mkrec");
+            c.ops.push(format!("let {r} = mkrec({})", pe(&a, 0)));
+            let s = c.sites.next();
+            c.stmts.push(let_(&r, call("mkrec", vec![a], s)));
+            c.vars.push((r, Ty::RecC, false));
+        }
+        33 | 34 => {
+            // call the closure held in such a record: a local one, or one bound at global scope
+            let rec = if o == 33 {
+                c.last(Ty::RecC)?
+            } else {
+                c.need("mkrec");
+                c.need("grec");
+                "grec".to_string()
+            };
+            let r = c.fresh("r");
+            c.ops.push(format!("let {r} = {rec}.f(x) * {rec}.gain"));
+            let s = c.sites.next();
+            let e = bin("*", E::CallE(Box::new(E::Field(Box::new(var(&rec)), "f".into())), vec![var(DSP_IN)], s), E::Field(Box::new(var(&rec)), "gain".into()));
+            c.stmts.push(let_(&r, e));
+            c.vars.push((r, Ty::F, false));
+        }
         30 | 31 => {
             // the closure a factory returns is applied on the spot: mkadd(a)(b)
             let r = c.fresh("r");
@@ -856,7 +883,7 @@ pub fn fc_decode(idx: u64, k: u32) -> Option<Gen> {
     };
     let mut hs = Sites(0);
     let mut items = vec![];
-    for h in ["cnt", "apply", "mkadd", "mkcounter", "gc", "gadd", "idf", "fact"] {
+    for h in ["cnt", "apply", "mkadd", "mkcounter", "gc", "gadd", "idf", "fact", "mkrec", "grec"] {
         if !c.need.contains(&h) {
             continue;
         }
@@ -876,6 +903,13 @@ pub fn fc_decode(idx: u64, k: u32) -> Option<Gen> {
                 }
                 items.push(Item::Let(Pat::Var("gc".into()), call("mkcounter", vec![], hs.next())));
             }
+            "mkrec" => items.push(fdef(
+                "mkrec",
+                &["a"],
+                E::Record(vec![("gain".into(), num(2.0)), ("f".into(), E::Lambda(vec!["y".into()], Box::new(bin("+", var("y"), var("a")))))]),
+                Shape::F,
+            )),
+            "grec" => items.push(Item::Let(Pat::Var("grec".into()), call("mkrec", vec![num(3.0)], hs.next()))),
             "gadd" => {
                 items.push(Item::Let(Pat::Var("gbase".into()), num(10.0)));
                 items.push(Item::Let(Pat::Var("gadd".into()), E::Lambda(vec!["y".into()], Box::new(bin("+", var("y"), var("gbase"))))));
@@ -1738,7 +1772,7 @@ pub fn features(p: &Prog) -> Vec<String> {
                 // a top-level function named as a value (bound to a local, passed on): wrapped in a closure object
                 E::Var(v) if fn_names.contains(v) => creates = true,
                 E::Call(n, args, _) => {
-                    if factories.contains(n) || n == "mkadd" {
+                    if factories.contains(n) || n == "mkadd" || n == "mkrec" {
                         creates = true;
                     }
                     if args.iter().any(|a| matches!(a, E::Var(v) if fn_names.contains(v))) {
@@ -1850,6 +1884,17 @@ pub fn features(p: &Prog) -> Vec<String> {
                 }
                 if p.items.iter().any(|it| matches!(it, Item::Fn(g) if g.name == "defb")) {
                     add("default_refers_to_parameter");
+                }
+                let mut rec_call = false;
+                walk(&f.body, &mut |x| {
+                    if let E::CallE(callee, _, _) = x {
+                        if matches!(&**callee, E::Field(..)) {
+                            rec_call = true;
+                        }
+                    }
+                });
+                if rec_call {
+                    add("closure_in_record_called");
                 }
                 walk(&f.body, &mut |x| match x {
                     E::Call(n, args, _) => {
